@@ -275,12 +275,17 @@ def run_thorough(pid, mod, replay=None):
             finally:
                 shutil.rmtree(d, ignore_errors=True)
         # checker self-test on this property's mutants and neutral edits
-        st = subprocess.run([sys.executable, os.path.join(VERIF, 'tools', 'selftest.py'), '--property', pid],
-                            capture_output=True, text=True, timeout=3000)
-        lines = [l for l in st.stdout.splitlines() if l and not l.startswith(' ')]
+        try:
+            st = subprocess.run([sys.executable, os.path.join(VERIF, 'tools', 'selftest.py'), '--property', pid],
+                                capture_output=True, text=True, timeout=int(os.environ.get('VERIF_SELFTEST_TIMEOUT', '6000')))
+            st_out = st.stdout
+        except subprocess.TimeoutExpired as e:
+            st_out = (e.stdout.decode() if isinstance(e.stdout, bytes) else (e.stdout or ''))
+            ctx.broken.append('checker self-test did not finish within its time limit (host too loaded?)')
+        lines = [l for l in st_out.splitlines() if l and not l.startswith(' ')]
         killed = sum(1 for l in lines if ' KILLED' in l)
         silent = sum(1 for l in lines if ' SILENT' in l)
-        notok = [l for l in lines if any(x in l for x in (' SURVIVED', ' NOISY', ' BROKEN', ' NOCOMPILE'))]
+        notok = [l for l in lines if any(x in l for x in (' SURVIVED', ' NOISY', ' BROKEN', ' NOCOMPILE')) and '-KNOWN' not in l]
         stale = [l for l in lines if ' STALE' in l]
         if notok:
             ctx.broken.append('checker self-test: %s' % '; '.join(notok[:5]))
